@@ -46,7 +46,7 @@ func harnessFuncs(pkg string) []string {
 	ents, _ := os.ReadDir(dir)
 	var out []string
 	for _, en := range ents {
-		if !strings.HasSuffix(en.Name(), ".go") {
+		if !strings.HasSuffix(en.Name(), ".go") || excludeFiles[filepath.Join(repoDir, pkg, en.Name())] {
 			continue
 		}
 		b, _ := os.ReadFile(filepath.Join(dir, en.Name()))
